@@ -2,7 +2,9 @@
    Model: Model/Messages.v; documented predicates: Spec/Messages.v.
    Every theorem is about ALL catalogs (lists of entries), all configurations and all oracles. *)
 From Coq Require Import List NArith ZArith Bool.
+From Coq Require Import Sorted.
 From I18n Require Import Lib.Outcome Model.Messages Spec.Messages Proofs.MessagesLib Proofs.MessagesFlags Proofs.Messages
+  Proofs.MessagesScan Proofs.MessagesUnusual Proofs.MessagesMore Proofs.MessagesFormats Proofs.MessagesClean
   Generated.StringFormats Generated.ControlChars Generated.PyConsts.
 Import ListNotations.
 Local Open Scope N_scope.
@@ -213,10 +215,9 @@ Theorem C16_clean_catalog_silent : forall cfg cat ds, clean_catalog cfg cat -> c
 Proof. exact clean_catalog_silent. Qed.
 Print Assumptions C16_clean_catalog_silent.
 
-(* no crash: with int() unlimited (maxd = 0, what `import lib` sets up since the D7 fix), every Cc character named in
-   data/control-characters, and text made of scalar values (what a decoded file consists of) *)
+(* no crash: with int() unlimited (maxd = 0, what `import lib` sets up since the D7 fix) and every Cc character named in
+   data/control-characters; since the D26 fix a lone surrogate no longer makes the XML check raise *)
 Theorem C16_no_crash : forall cfg cat, c_maxd cfg = 0 -> ctl_complete (c_ctlnames cfg) ->
-  (forall e, In e cat -> scalar_text (me_msgid e) /\ scalar_text (me_msgstr e)) ->
   exists ds, check_messages cfg cat = Ok ds.
 Proof. exact check_messages_total. Qed.
 Print Assumptions C16_no_crash.
@@ -226,12 +227,8 @@ Theorem C16_control_names_complete : ctl_complete control_character_names.
 Proof. apply ctl_table_ok_sound. vm_compute. reflexivity. Qed.
 Print Assumptions C16_control_names_complete.
 
-(* no format name is empty or makes "<name>-format" start with no- / possible- / impossible-, and every format has an
-   example: the four-prefix lookup is unambiguous on the shipped table *)
-Definition formats_sane (tbl : list (list N * list (list N))) : bool :=
-  forallb (fun p => negb (is_nil (fst p)) && negb (starts_with s_no (fst p ++ s_format))
-                    && negb (starts_with s_possible (fst p ++ s_format)) && negb (starts_with s_impossible (fst p ++ s_format))
-                    && negb (is_nil (snd p))) tbl.
+(* no format name is empty or makes "<name>-format" start with no- / possible- / impossible- / range:, and every format
+   has an example: the four-prefix lookup is unambiguous on the shipped table ([formats_sane] is in Proofs/MessagesFormats.v) *)
 Theorem C16_string_formats_sane : formats_sane string_formats = true.
 Proof. vm_compute. reflexivity. Qed.
 Print Assumptions C16_string_formats_sane.
@@ -285,3 +282,173 @@ Example C16_empty_flag_items :     (* "#, ,fuzzy," *)
   check_flags (cfg0 0 false) false [[]; s_fuzzy; []] =
   Ok ([MUnknownFlag []], {| fi_fuzzy := true; fi_range := None; fi_formats := [] |}).
 Proof. vm_compute. reflexivity. Qed.
+
+(* ================================================================== *)
+(* second round: the scanners against the declarative predicates, first-seen unusual characters, XML completeness,
+   dispatch, format-flag decomposition, a fully declarative clean catalog *)
+
+(* --- the three scanners = the declarative predicates of Spec/Messages.v --- *)
+Theorem C16_find_unusual_spec : forall isword s c, In c (find_unusual isword s) <-> exists k, unusual_at isword s k c.
+Proof. exact find_unusual_spec. Qed.
+Print Assumptions C16_find_unusual_spec.
+Theorem C16_marker_line_spec : forall l, is_marker_line l = true <-> marker_line l.
+Proof. exact is_marker_line_spec. Qed.
+Print Assumptions C16_marker_line_spec.
+Theorem C16_lines_spec : forall s, lines_of s (lines s).
+Proof. exact lines_spec. Qed.
+Print Assumptions C16_lines_spec.
+Theorem C16_lines_unique : forall ls s, lines_of s ls -> ls = lines s.
+Proof. exact lines_unique. Qed.
+Print Assumptions C16_lines_unique.
+Theorem C16_search_marker_spec : forall s m, search_marker s = Some m <-> first_marker_line s m.
+Proof. exact search_marker_spec. Qed.
+Print Assumptions C16_search_marker_spec.
+Theorem C16_xml_trigger_spec : forall s, xml_trigger s = true <-> xml_trigger_comment s.
+Proof. exact xml_trigger_spec. Qed.
+Print Assumptions C16_xml_trigger_spec.
+Theorem C16_translation_list : forall e, tr_strings e = translation_list e.
+Proof. exact tr_strings_list. Qed.
+Print Assumptions C16_translation_list.
+
+(* --- unusual-character-in-translation: completeness, exactness, uniqueness --- *)
+(* an event at entry j names exactly the characters that are, in one translation t of that entry, unusual, not explained by
+   msgid / msgid_plural, and not unexplained in any earlier (message, translation) of the file; in increasing order *)
+Theorem C16_unusual_event_iff : forall cfg, c_encoding cfg = true -> forall cat ds j cs, check_messages cfg cat = Ok ds ->
+  (In (AtMsg j (MUnusual cs)) ds <->
+   exists t, cs <> [] /\ StronglySorted N.lt cs /\ forall c, In c cs <-> first_unexplained_at (c_isword cfg) cat j t c).
+Proof. exact unusual_event_iff. Qed.
+Print Assumptions C16_unusual_event_iff.
+(* a character is reported at entry j iff j is the first message (not obsolete, not the header; fuzzy or not) one of whose
+   translations contains it unexplained *)
+Theorem C16_unusual_char_iff : forall cfg, c_encoding cfg = true -> forall cat ds j c, check_messages cfg cat = Ok ds ->
+  ((exists cs, In (AtMsg j (MUnusual cs)) ds /\ In c cs) <->
+   exists e, nth_error cat j = Some e /\ message e /\ unexplained_in (c_isword cfg) e c
+     /\ forall j' e', (j' < j)%nat -> nth_error cat j' = Some e' -> message e' -> ~ unexplained_in (c_isword cfg) e' c).
+Proof. exact unusual_char_iff. Qed.
+Print Assumptions C16_unusual_char_iff.
+(* and never twice *)
+Theorem C16_unusual_once : forall cfg, c_encoding cfg = true -> forall cat ds c, check_messages cfg cat = Ok ds ->
+  (length (filter (cmentions c) ds) <= 1)%nat.
+Proof. exact unusual_once. Qed.
+Print Assumptions C16_unusual_once.
+(* an EXPLAINED occurrence does not mark the character as seen: U+0001 is in msgid and msgstr of the first message, the second
+   message is still reported.  (A variant that adds every unusual character of a translation to the seen set reports nothing
+   here, so C16_unusual_char_iff is false of it.) *)
+Example C16_explained_occurrence_does_not_mark_seen :
+  check_messages (cfg0 0 false) [e_plain [120; 1] [117; 1] []; e_plain [101; 50] [118; 1] []] = Ok [AtMsg 1 (MUnusual [1])].
+Proof. vm_compute. reflexivity. Qed.
+Example C16_first_seen_across_strings_and_entries :
+  check_messages (cfg0 0 false)
+    [e_plain [97] [117; 2; 1] [];
+     {| me_ctxt := None; me_msgid := [98]; me_plural := Some [98; 115]; me_msgstr := []; me_msgstr_plural := [[1; 3]; [3; 4]];
+        me_flags := [s_fuzzy]; me_obsolete := false; me_previous := false; me_comment := [] |}]
+  = Ok [AtMsg 0 (MUnusual [1; 2]); AtMsg 1 (MUnusual [3]); AtMsg 1 (MUnusual [4])].
+Proof. vm_compute. reflexivity. Qed.
+
+(* --- malformed-xml: sound AND complete w.r.t. the expat oracle --- *)
+Theorem C16_malformed_xml_iff : forall cfg cat ds j m, check_messages cfg cat = Ok ds ->
+  (In (AtMsg j (MMalformedXml m)) ds <->
+   exists e, nth_error cat j = Some e /\ live e = true /\ xml_trigger (me_comment e) = true /\ c_encoding cfg = true
+     /\ ((c_xml cfg (me_msgid e) = Some m /\ c_template cfg = true)
+         \/ (c_xml cfg (me_msgid e) = None /\ ~ fuzzy e /\ me_msgstr e <> [] /\ c_xml cfg (me_msgstr e) = Some m))).
+Proof. exact malformed_xml_iff. Qed.
+Print Assumptions C16_malformed_xml_iff.
+
+(* --- the format checkers: which run, and in which order --- *)
+Theorem C16_dispatch_iff : forall cfg cat ds j f, check_messages cfg cat = Ok ds ->
+  (In (AtMsg j (MDispatch f)) ds <->
+   exists e, nth_error cat j = Some e /\ live e = true /\ has_checker f = true
+     /\ exists flag, In flag (me_flags e) /\ classify cfg flag = Ok (FFormat (Some (TpPos, f)))).
+Proof. exact dispatch_iff. Qed.
+Print Assumptions C16_dispatch_iff.
+(* the checkers of one message run in increasing order of their names (sorted(flags.formats)), each at most once *)
+Theorem C16_dispatch_sorted : forall cfg cat ds j, check_messages cfg cat = Ok ds -> StronglySorted str_lt (dispatched j ds).
+Proof. exact dispatch_sorted. Qed.
+Print Assumptions C16_dispatch_sorted.
+Example C16_dispatch_order :     (* "#, python-format, c-format, python-brace-format, perl-brace-format, java-format" *)
+  check_messages (cfg0 0 false)
+    [e_plain [97] [98] [s_python ++ s_format; s_c ++ s_format; s_python_brace ++ s_format; s_perl_brace ++ s_format; [106;97;118;97] ++ s_format]]
+  = Ok [AtMsg 0 (MConflictFlags ([99] ++ s_format) ([106;97;118;97] ++ s_format));
+        AtMsg 0 (MConflictFlags ([99] ++ s_format) (s_perl_brace ++ s_format));
+        AtMsg 0 (MConflictFlags ([99] ++ s_format) (s_python_brace ++ s_format));
+        AtMsg 0 (MConflictFlags ([106;97;118;97] ++ s_format) (s_perl_brace ++ s_format));
+        AtMsg 0 (MConflictFlags ([106;97;118;97] ++ s_format) (s_python ++ s_format));
+        AtMsg 0 (MConflictFlags (s_perl_brace ++ s_format) (s_python ++ s_format));
+        AtMsg 0 (MConflictFlags (s_python ++ s_format) (s_python_brace ++ s_format));
+        AtMsg 0 (MDispatch s_c); AtMsg 0 (MDispatch s_perl_brace); AtMsg 0 (MDispatch s_python); AtMsg 0 (MDispatch s_python_brace)].
+Proof. vm_compute. reflexivity. Qed.
+
+(* --- format flags: <family><name>-format, and (family, name) determines the flag --- *)
+Theorem C16_format_flag_decomposition : forall cfg, formats_sane (c_formats cfg) = true -> forall f tp name,
+  classify cfg f = Ok (FFormat (Some (tp, name))) <-> In name (names_of (c_formats cfg)) /\ f = format_flag tp name.
+Proof. exact classify_format_iff. Qed.
+Print Assumptions C16_format_flag_decomposition.
+Theorem C16_format_flag_injective : forall cfg, formats_sane (c_formats cfg) = true -> forall f g tp name,
+  classify cfg f = Ok (FFormat (Some (tp, name))) -> classify cfg g = Ok (FFormat (Some (tp, name))) -> f = g.
+Proof. exact format_flag_injective. Qed.
+Print Assumptions C16_format_flag_injective.
+Theorem C16_unknown_is_not_known : forall cfg, formats_sane (c_formats cfg) = true -> forall f,
+  (classify cfg f = Ok (FFormat None) \/ classify cfg f = Ok FOther) <-> ~ known_flag (names_of (c_formats cfg)) f.
+Proof. exact unknown_decl. Qed.
+Print Assumptions C16_unknown_is_not_known.
+Theorem C16_range_flag_valid_iff : forall cfg f r, classify cfg f = Ok (FRange r) -> forall i j, r = Some (i, j) <-> valid_range f i j.
+Proof. exact range_flag_valid_iff. Qed.
+Print Assumptions C16_range_flag_valid_iff.
+
+(* the flag tags of a file in declarative form *)
+Theorem C16_unknown_flag_decl : forall cfg cat ds, formats_sane (c_formats cfg) = true -> check_messages cfg cat = Ok ds -> forall j f,
+  In (AtMsg j (MUnknownFlag f)) ds <->
+  exists e, nth_error cat j = Some e /\ live e = true /\ In f (me_flags e) /\ ~ known_flag (names_of (c_formats cfg)) f.
+Proof. exact unknown_flag_file. Qed.
+Print Assumptions C16_unknown_flag_decl.
+Theorem C16_invalid_range_flag_decl : forall cfg cat ds, check_messages cfg cat = Ok ds -> forall j f,
+  In (AtMsg j (MInvalidRange f)) ds <->
+  exists e, nth_error cat j = Some e /\ live e = true /\ In f (me_flags e) /\ is_range_flag f /\ forall a b, ~ valid_range f a b.
+Proof. exact invalid_range_file. Qed.
+Print Assumptions C16_invalid_range_flag_decl.
+Theorem C16_range_flag_without_plural_decl : forall cfg cat ds, check_messages cfg cat = Ok ds -> forall j,
+  In (AtMsg j MRangeNoPlural) ds <->
+  exists e, nth_error cat j = Some e /\ live e = true /\ hp_of e = false /\ exists f, In f (me_flags e) /\ is_range_flag f.
+Proof. exact range_no_plural_file. Qed.
+Print Assumptions C16_range_flag_without_plural_decl.
+Theorem C16_redundant_flag_decl : forall cfg cat ds, formats_sane (c_formats cfg) = true -> check_messages cfg cat = Ok ds -> forall j p q,
+  In (AtMsg j (MRedundantFlag p q)) ds <->
+  exists e, nth_error cat j = Some e /\ live e = true /\
+    exists name, In name (names_of (c_formats cfg)) /\ p = format_flag TpPossible name /\ q = format_flag TpPos name
+                 /\ In p (me_flags e) /\ In q (me_flags e).
+Proof. exact redundant_flag_file. Qed.
+Print Assumptions C16_redundant_flag_decl.
+(* the format disjuncts of C16_conflicting_flags_iff, and the range rows, declaratively *)
+Theorem C16_format_conflict_decl : forall cfg hp F ds info, formats_sane (c_formats cfg) = true -> check_flags cfg hp F = Ok (ds, info) -> forall a b,
+  (exists items k1 k2, classify_all cfg (counter_sorted F) = Ok items
+        /\ dget k1 (fmt_dict TpPos items) = Some a /\ dget k2 (fmt_dict TpPos items) = Some b
+        /\ str_ltb k1 k2 = true /\ compatible (c_formats cfg) k1 k2 = false)
+  <-> exists n1 n2, In n1 (names_of (c_formats cfg)) /\ In n2 (names_of (c_formats cfg)) /\ str_compare n1 n2 = Lt
+        /\ compatible (c_formats cfg) n1 n2 = false
+        /\ a = format_flag TpPos n1 /\ b = format_flag TpPos n2 /\ In a F /\ In b F.
+Proof. exact format_conflict_decl. Qed.
+Print Assumptions C16_format_conflict_decl.
+Theorem C16_family_conflict_decl : forall cfg hp F ds info, formats_sane (c_formats cfg) = true -> check_flags cfg hp F = Ok (ds, info) -> forall a b,
+  (exists items k tp1 tp2, classify_all cfg (counter_sorted F) = Ok items
+        /\ ((tp1 = TpPos /\ tp2 = TpNo) \/ (tp1 = TpPos /\ tp2 = TpImpossible) \/ (tp1 = TpPossible /\ tp2 = TpImpossible))
+        /\ dget k (fmt_dict tp1 items) = Some a /\ dget k (fmt_dict tp2 items) = Some b)
+  <-> exists name tp1 tp2, In name (names_of (c_formats cfg))
+        /\ ((tp1 = TpPos /\ tp2 = TpNo) \/ (tp1 = TpPos /\ tp2 = TpImpossible) \/ (tp1 = TpPossible /\ tp2 = TpImpossible))
+        /\ a = format_flag tp1 name /\ b = format_flag tp2 name /\ In a F /\ In b F.
+Proof. exact family_conflict_decl. Qed.
+Print Assumptions C16_family_conflict_decl.
+Theorem C16_range_row_decl : forall cfg hp F ds info, check_flags cfg hp F = Ok (ds, info) -> forall items r f n,
+  classify_all cfg (counter_sorted F) = Ok items ->
+  (In (r, (f, n)) (range_rows items) <-> In f F /\ n = count_str f F /\ is_range_flag f /\ valid_range f (fst r) (snd r)).
+Proof. exact range_row_decl. Qed.
+Print Assumptions C16_range_row_decl.
+
+(* --- clean, declaratively --- *)
+Theorem C16_flags_clean_silent : forall cfg hp F ds info, formats_sane (c_formats cfg) = true ->
+  flags_clean (c_formats cfg) hp F -> check_flags cfg hp F = Ok (ds, info) -> ds = [].
+Proof. exact flags_clean_silent. Qed.
+Print Assumptions C16_flags_clean_silent.
+Theorem C16_clean_catalog_decl_silent : forall cfg cat ds, formats_sane (c_formats cfg) = true ->
+  clean_catalog_decl cfg cat -> check_messages cfg cat = Ok ds -> forall d, In d ds -> is_tag d = false.
+Proof. exact clean_catalog_decl_silent. Qed.
+Print Assumptions C16_clean_catalog_decl_silent.
